@@ -36,6 +36,15 @@ var spPairs = []spPair{
 	{A: "tensor.(*Dense).FlatNotMaskedEdges", B: "tensor.(*Dense).FlatMaskedEdges", Map: [][2]string{{"NextInvalid", "NEXTA"}, {"NextValid", "NextInvalid"}, {"NEXTA", "NextValid"}}, Props: []string{"C15"}},
 }
 
+func init() {
+	// all-masked is the dual of any-masked: polarity of the mask test, of the iterator's stop
+	// condition and of the verdicts is flipped; the unmasked early exit answers false in both.
+	spPairs = append(spPairs, spPair{A: "tensor.doMaskAll", B: "tensor.doMaskAny", Map: [][2]string{
+		{"if !%ts.mask[@r]", "if %ts.mask[@r]"}, {"NextValid", "NextInvalid"},
+		{"return false", "RETF"}, {"return true", "return false"}, {"RETF", "return true"},
+		{"if !%ts.IsMasked()\n      return true", "if !%ts.IsMasked()\n      return false"}}, Props: []string{"C15"}})
+}
+
 var stringLit = regexp.MustCompile(`"(?:[^"\\]|\\.)*"`)
 
 func spText(rc *RC, key string) (string, string, bool) {
